@@ -265,7 +265,31 @@ func c11Drive(args []string) int {
 	axes := []string{"child::", "descendant::", "descendant-or-self::", "parent::", "ancestor::", "ancestor-or-self::", "following-sibling::", "preceding-sibling::", "following::", "preceding::", "self::", "attribute::"}
 	tests := []string{"a", "b", "c", "*", "node()", "p:d", "text()"}
 	preds := []string{"", "", "[1]", "[2]", "[last()]", "[position()>1]", "[@k]", "[@k='1']", "[a]", "[b='1']", "[.='1']", "[count(*)>1]", "[not(@j)]", "[contains(., 'x')]", "[starts-with(name(), 'a')]", "[string-length(.)>1]", "[a or b]", "[@k and @j]", "[@p:m]", "[local-name()='d']"}
+	// abbreviated syntax (what schemas are written in): ./x, .//x, ../x, @k, x/y, //x
+	genAbbrev := func() string {
+		var sb strings.Builder
+		sb.WriteString([]string{"", "./", ".//", "//", "/", "../", "../../"}[r.Intn(7)])
+		steps := 1 + r.Intn(3)
+		for s := 0; s < steps; s++ {
+			if s > 0 {
+				sb.WriteString([]string{"/", "/", "//"}[r.Intn(3)])
+			}
+			t := []string{"a", "b", "c", "p:d", "*", "..", ".", "text()"}[r.Intn(8)]
+			if s == steps-1 && r.Intn(5) == 0 {
+				t = []string{"@k", "@j", "@*"}[r.Intn(3)]
+			}
+			pr := ""
+			if t != ".." && t != "." && t != "text()" && t[0] != '@' {
+				pr = []string{"", "", "[1]", "[last()]", "[@k]", "[b]", "[position()>1]"}[r.Intn(7)]
+			}
+			sb.WriteString(t + pr)
+		}
+		return sb.String()
+	}
 	genExpr := func() string {
+		if r.Intn(4) == 0 {
+			return genAbbrev()
+		}
 		var sb strings.Builder
 		if r.Intn(2) == 0 {
 			sb.WriteString("/")
@@ -334,6 +358,43 @@ func c11Drive(args []string) int {
 					}
 					return
 				}
+				// the string entry points of the package (with and without its expression cache) must select what the
+				// compiled expression selects
+				sigIdr := func(nd *idr.Node) string {
+					depth, prev := 0, 0
+					for p := nd; p.Parent != nil; p = p.Parent {
+						depth++
+					}
+					for p := nd.PrevSibling; p != nil; p = p.PrevSibling {
+						if p.Type != idr.AttributeNode {
+							prev++
+						}
+					}
+					name := nd.Data
+					if nd.Type == idr.TextNode {
+						name = "#text"
+					}
+					if nd.Type == idr.AttributeNode {
+						name, prev = "@"+nd.Data, 0
+					}
+					return sigOf(name, nd.InnerText(), depth, prev)
+				}
+				var viaString [2][]string
+				for k, flags := range [][]uint{nil, {idr.DisableXPathCache}} {
+					ns, err := idr.MatchAll(ictx[0], expr, flags...)
+					if err != nil {
+						viaString[k] = []string{"ERROR " + err.Error()}
+						continue
+					}
+					for _, nd := range ns {
+						viaString[k] = append(viaString[k], sigIdr(nd))
+					}
+				}
+				defer func() {
+					if fmt.Sprint(viaString[0]) != fmt.Sprint(left) || fmt.Sprint(viaString[1]) != fmt.Sprint(left) {
+						left = append(left, fmt.Sprintf("ENTRY-POINTS-DIFFER MatchAll(cached)=%v MatchAll(uncached)=%v", viaString[0], viaString[1]))
+					}
+				}()
 				it := idr.QueryIter(ictx[0], compiled)
 				for it.MoveNext() {
 					nd := it.Current().(interface{ Current() *idr.Node }).Current()
